@@ -808,7 +808,10 @@ async fn scenario(p: Plan) {
                     needs_wrap = !secure2;
                     exec::count(if needs_wrap { "probe.false-denial.needs-last-nsec3" } else { "probe.false-denial.without-last-nsec3" });
                 }
-                let shape = format!("{:?}-for-{}{}{}", claim, outcome_name(&outcome).split("-below").next().unwrap().trim_end_matches(|c: char| c.is_ascii_digit()).trim_end_matches('-'), if has_soa { "" } else { ":no-soa" }, if needs_wrap { ":needs-last-nsec3" } else { "" });
+                // (one defect, one key: which truth class the false denial contradicts does not
+                // distinguish anything once it is established that the last-of-chain record is
+                // what made the validator accept it)
+                let shape = if needs_wrap { "false-denial:needs-last-nsec3".to_string() } else { format!("{:?}-for-{}{}", claim, outcome_name(&outcome).split("-below").next().unwrap().trim_end_matches(|c: char| c.is_ascii_digit()).trim_end_matches('-'), if has_soa { "" } else { ":no-soa" }) };
                 if exec::violate(&format!("{id}.unsound"), &shape, format!("{} {}: response claiming {:?} (rcode {:?}, {} answers) accepted as Secure, but the zone says {:?}; rewrites {:?}; owners {:?}; opt_out={} delegation={:?}", victim.name, qt, claim, rcode, answer_recs.len(), outcome, p.rewrites, p.owners, p.opt_out, p.delegation)) {
                     return;
                 }
